@@ -41,10 +41,10 @@ import (
 
 var hashes = []crypto.Hash{crypto.SHA1, crypto.SHA224, crypto.SHA256, crypto.SHA384, crypto.SHA512, crypto.SHA3_256, crypto.SHA3_512, crypto.BLAKE2b_256, crypto.BLAKE2b_512}
 
-func (g *gen) hash() crypto.Hash { return hashes[g.r.Intn(len(hashes))] }
+func (g *gen) hash() crypto.Hash { return hashes[g.intn(len(hashes))] }
 
 func up(g *gen) *uint64 {
-	if g.r.Bool() {
+	if g.boolean() {
 		return nil
 	}
 	v := g.u64()
@@ -75,7 +75,7 @@ func offsetMinutes(t time.Time) int {
 
 func iq(g *gen) stanza.IQ {
 	types := []stanza.IQType{stanza.GetIQ, stanza.SetIQ, stanza.ResultIQ, stanza.ErrorIQ}
-	return stanza.IQ{ID: g.opt(), To: g.jid(), From: g.jid(), Lang: "", Type: types[g.r.Intn(len(types))]}
+	return stanza.IQ{ID: g.opt(), To: g.jid(), From: g.jid(), Lang: "", Type: types[g.intn(len(types))]}
 }
 
 func canonIQ(q stanza.IQ) string {
@@ -152,7 +152,7 @@ func init() {
 	})
 	register(spec[info.Identity]{name: "info.Identity",
 		gen: func(g *gen) info.Identity {
-			return info.Identity{Category: g.text(), Type: g.text(), Name: g.opt(), Lang: []string{"", "en", "de-CH", "x<y"}[g.r.Intn(4)]}
+			return info.Identity{Category: g.text(), Type: g.text(), Name: g.opt(), Lang: []string{"", "en", "de-CH", "x<y"}[g.intn(4)]}
 		},
 		marshalVal: true, marshalPtr: true,
 		tr:    func(v *info.Identity) xml.TokenReader { return v.TokenReader() },
@@ -165,7 +165,7 @@ func init() {
 		gen: func(g *gen) disco.Info {
 			i := disco.Info{InfoQuery: disco.InfoQuery{Node: g.opt()}}
 			for n := g.count(4); n > 0; n-- {
-				i.Identity = append(i.Identity, info.Identity{Category: g.text(), Type: g.text(), Name: g.opt(), Lang: []string{"", "en"}[g.r.Intn(2)]})
+				i.Identity = append(i.Identity, info.Identity{Category: g.text(), Type: g.text(), Name: g.opt(), Lang: []string{"", "en"}[g.intn(2)]})
 			}
 			for n := g.count(5); n > 0; n-- {
 				i.Features = append(i.Features, info.Feature{Var: g.text()})
@@ -285,7 +285,7 @@ func init() {
 	register(spec[delay.Delay]{name: "delay.Delay",
 		gen: func(g *gen) delay.Delay {
 			t := g.time(false)
-			if g.r.Chance(1, 40) {
+			if g.chance(1, 40) {
 				t = g.farTime()
 			}
 			return delay.Delay{From: g.jid(), Time: t, Reason: g.opt()}
@@ -302,7 +302,7 @@ func init() {
 		witnesses: []stanza.Delay{{Stamp: time.Date(2020, 1, 2, 3, 4, 5, 0, time.UTC)}},
 		gen: func(g *gen) stanza.Delay {
 			t := g.time(false)
-			if g.r.Chance(1, 40) {
+			if g.chance(1, 40) {
 				t = g.farTime()
 			}
 			return stanza.Delay{From: g.jid(), Stamp: t, Reason: g.opt()}
@@ -320,7 +320,7 @@ func init() {
 	register(spec[xtime.Time]{name: "xtime.Time",
 		gen: func(g *gen) xtime.Time {
 			t := g.time(false)
-			if g.r.Chance(1, 40) {
+			if g.chance(1, 40) {
 				t = g.farTime()
 			}
 			return xtime.Time{Time: t}
@@ -379,7 +379,7 @@ func init() {
 	}
 	register(spec[wrapped]{name: "forward/carbons.Wrap",
 		gen: func(g *gen) wrapped {
-			return wrapped{Kind: g.r.Intn(4), Delay: delay.Delay{From: g.jid(), Time: g.time(false), Reason: g.opt()},
+			return wrapped{Kind: g.intn(4), Delay: delay.Delay{From: g.jid(), Time: g.time(false), Reason: g.opt()},
 				Body: g.text(), Payload: g.text(), Msg: stanza.Message{To: g.jid(), Type: stanza.NormalMessage, ID: g.opt()}}
 		},
 		tr: wrapTR,
@@ -387,7 +387,7 @@ func init() {
 
 	// ---- receipts, styling hint ----------------------------------------------------------
 	register(spec[receipts.Requested]{name: "receipts.Requested",
-		gen:        func(g *gen) receipts.Requested { return receipts.Requested(g.r.Bool()) },
+		gen:        func(g *gen) receipts.Requested { return receipts.Requested(g.boolean()) },
 		marshalVal: true, marshalPtr: true,
 		tr: func(v *receipts.Requested) xml.TokenReader { return v.TokenReader() },
 		wx: func(v *receipts.Requested, w xmlstream.TokenWriter) (int, error) { return v.WriteXML(w) },
@@ -399,7 +399,7 @@ func init() {
 	})
 	register(spec[styling.Unstyled]{name: "styling.Unstyled",
 		witnesses: []styling.Unstyled{{Value: false}},
-		gen:        func(g *gen) styling.Unstyled { return styling.Unstyled{Value: g.r.Bool()} },
+		gen:        func(g *gen) styling.Unstyled { return styling.Unstyled{Value: g.boolean()} },
 		marshalVal: true, marshalPtr: true,
 		tr:    func(v *styling.Unstyled) xml.TokenReader { return v.TokenReader() },
 		wx:    func(v *styling.Unstyled, w xmlstream.TokenWriter) (int, error) { return v.WriteXML(w) },
@@ -409,7 +409,7 @@ func init() {
 
 	// ---- roster, blocklist, bookmarks ----------------------------------------------------
 	genRosterItem := func(g *gen) roster.Item {
-		return roster.Item{JID: g.jid(), Name: g.opt(), Subscription: []string{"", "none", "to", "from", "both", "remove", "a<b"}[g.r.Intn(7)], Group: g.texts(4)}
+		return roster.Item{JID: g.jid(), Name: g.opt(), Subscription: []string{"", "none", "to", "from", "both", "remove", "a<b"}[g.intn(7)], Group: g.texts(4)}
 	}
 	register(spec[roster.Item]{name: "roster.Item",
 		gen:        genRosterItem,
@@ -443,7 +443,7 @@ func init() {
 	})
 	register(spec[blocklist.Item]{name: "blocklist.Item",
 		gen: func(g *gen) blocklist.Item {
-			it := blocklist.Item{JID: g.njid(), Reason: []blocklist.ReportReason{"", blocklist.ReasonSpam, blocklist.ReasonAbuse}[g.r.Intn(3)], Text: g.opt()}
+			it := blocklist.Item{JID: g.njid(), Reason: []blocklist.ReportReason{"", blocklist.ReasonSpam, blocklist.ReasonAbuse}[g.intn(3)], Text: g.opt()}
 			for n := g.count(3); n > 0; n-- {
 				it.StanzaIDs = append(it.StanzaIDs, stanza.ID{ID: g.text(), By: g.njid()})
 			}
@@ -487,7 +487,7 @@ func init() {
 	register(spec[bookmarks.Channel]{name: "bookmarks.Channel",
 		gen: func(g *gen) bookmarks.Channel {
 			ext := [][]byte{nil, []byte("<a xmlns=\"urn:x\"/>"), []byte("<a xmlns=\"urn:x\">t&amp;</a><b xmlns=\"urn:y\" k=\"v\"/>")}
-			return bookmarks.Channel{Autojoin: g.r.Bool(), Name: g.opt(), Nick: g.opt(), Password: g.opt(), Extensions: ext[g.r.Intn(len(ext))]}
+			return bookmarks.Channel{Autojoin: g.boolean(), Name: g.opt(), Nick: g.opt(), Password: g.opt(), Extensions: ext[g.intn(len(ext))]}
 		},
 		marshalVal: true, marshalPtr: true,
 		tr:  func(v *bookmarks.Channel) xml.TokenReader { return v.TokenReader() },
@@ -510,7 +510,7 @@ func init() {
 		witnesses: []history.Query{{PageID: "p"}, {PageID: "p", Last: true}, {Start: time.Date(2020, 1, 2, 3, 4, 5, 600000000, time.UTC)}, {End: time.Date(2020, 1, 2, 3, 4, 5, 1, time.UTC)}},
 		gen: func(g *gen) history.Query {
 			q := history.Query{ID: g.opt(), With: g.jid(), Start: g.time(true), End: g.time(true), BeforeID: g.opt(), AfterID: g.opt(),
-				Limit: g.u64(), Last: g.r.Bool(), PageID: g.opt(), Reverse: g.r.Bool()}
+				Limit: g.u64(), Last: g.boolean(), PageID: g.opt(), Reverse: g.boolean()}
 			for n := g.count(3); n > 0; n-- {
 				q.IDs = append(q.IDs, g.ntext())
 			}
@@ -540,7 +540,7 @@ func init() {
 		gen: func(g *gen) history.Result {
 			var s paging.Set
 			s.First.ID, s.First.Index, s.Last, s.Count = g.text(), up(g), g.text(), up(g)
-			return history.Result{Complete: g.r.Bool(), Unstable: g.r.Bool(), Set: s}
+			return history.Result{Complete: g.boolean(), Unstable: g.boolean(), Set: s}
 		},
 		marshalPtr: true,
 		tr:         func(v *history.Result) xml.TokenReader { return v.TokenReader() },
@@ -560,7 +560,7 @@ func init() {
 		return (&kv{}).j("jid", v.JID).s("affiliation", v.Affiliation.String()).s("nick", v.Nick).s("role", v.Role.String()).s("reason", v.Reason).String()
 	}
 	genMucItem := func(g *gen) muc.Item {
-		return muc.Item{JID: g.jid(), Affiliation: muc.Affiliation(g.r.Intn(5)), Nick: g.opt(), Role: muc.Role(g.r.Intn(4)), Reason: g.opt()}
+		return muc.Item{JID: g.jid(), Affiliation: muc.Affiliation(g.intn(5)), Nick: g.opt(), Role: muc.Role(g.intn(4)), Reason: g.opt()}
 	}
 	register(spec[muc.Item]{name: "muc.Item",
 		witnesses: []muc.Item{{Affiliation: muc.AffiliationOwner}, {Role: muc.RoleModerator}},
@@ -577,10 +577,10 @@ func init() {
 	})
 	register(spec[muc.Invitation]{name: "muc.Invitation",
 		gen: func(g *gen) muc.Invitation {
-			i := muc.Invitation{Continue: g.r.Bool(), JID: g.njid(), Password: g.opt(), Reason: g.opt(), Thread: g.opt()}
-			if g.r.Bool() {
+			i := muc.Invitation{Continue: g.boolean(), JID: g.njid(), Password: g.opt(), Reason: g.opt(), Thread: g.opt()}
+			if g.boolean() {
 				i.XMLName = xml.Name{Space: muc.NSConf, Local: "x"}
-			} else if g.r.Bool() {
+			} else if g.boolean() {
 				i.XMLName = xml.Name{Space: muc.NSUser, Local: "x"}
 			}
 			return i
@@ -607,7 +607,7 @@ func init() {
 	// ---- ad-hoc commands ---------------------------------------------------------------------
 	register(spec[commands.Command]{name: "commands.Command",
 		gen: func(g *gen) commands.Command {
-			return commands.Command{JID: g.jid(), Action: []string{"", "execute", "cancel", "next", "prev", "complete", "<x>"}[g.r.Intn(7)], Name: g.opt(), Node: g.text(), SID: g.opt()}
+			return commands.Command{JID: g.jid(), Action: []string{"", "execute", "cancel", "next", "prev", "complete", "<x>"}[g.intn(7)], Name: g.opt(), Node: g.text(), SID: g.opt()}
 		},
 		marshalVal: true, marshalPtr: true,
 		tr:  func(v *commands.Command) xml.TokenReader { return v.TokenReader() },
@@ -618,7 +618,7 @@ func init() {
 		},
 	})
 	register(spec[commands.Actions]{name: "commands.Actions",
-		gen:        func(g *gen) commands.Actions { return commands.Actions(g.r.Intn(64)) },
+		gen:        func(g *gen) commands.Actions { return commands.Actions(g.intn(64)) },
 		marshalVal: true, marshalPtr: true,
 		tr:    func(v *commands.Actions) xml.TokenReader { return v.TokenReader() },
 		wx:    func(v *commands.Actions, w xmlstream.TokenWriter) (int, error) { return v.WriteXML(w) },
@@ -635,7 +635,7 @@ func init() {
 	})
 	register(spec[commands.Note]{name: "commands.Note",
 		gen: func(g *gen) commands.Note {
-			return commands.Note{Type: commands.NoteType(g.r.Intn(3)), Value: g.text()}
+			return commands.Note{Type: commands.NoteType(g.intn(3)), Value: g.text()}
 		},
 		marshalVal: true, marshalPtr: true,
 		tr:    func(v *commands.Note) xml.TokenReader { return v.TokenReader() },
@@ -645,7 +645,7 @@ func init() {
 	})
 	register(spec[commands.Response]{name: "commands.Response",
 		gen: func(g *gen) commands.Response {
-			return commands.Response{IQ: iq(g), Node: g.text(), SID: g.opt(), Status: []string{"", "executing", "completed", "canceled"}[g.r.Intn(4)]}
+			return commands.Response{IQ: iq(g), Node: g.text(), SID: g.opt(), Status: []string{"", "executing", "completed", "canceled"}[g.intn(4)]}
 		},
 		marshalVal: true, marshalPtr: true,
 		tr: func(v *commands.Response) xml.TokenReader { return v.TokenReader() },
@@ -687,7 +687,7 @@ func init() {
 	register(spec[upload.File]{name: "upload.File",
 		gen: func(g *gen) upload.File {
 			sizes := []int{0, 1, -1, 1 << 31, 1<<63 - 1, -1 << 63}
-			return upload.File{Name: g.text(), Size: sizes[g.r.Intn(len(sizes))], Type: g.opt()}
+			return upload.File{Name: g.text(), Size: sizes[g.intn(len(sizes))], Type: g.opt()}
 		},
 		marshalVal: true, marshalPtr: true,
 		tr:    func(v *upload.File) xml.TokenReader { return v.TokenReader() },
@@ -699,10 +699,10 @@ func init() {
 		gen: func(g *gen) upload.Slot {
 			urls := []string{"", "https://example.net/up/a%20b?x=1&y=<2>", "http://[::1]:8080/p", "https://example.net/é"}
 			var s upload.Slot
-			if u := urls[g.r.Intn(len(urls))]; u != "" {
+			if u := urls[g.intn(len(urls))]; u != "" {
 				s.PutURL, _ = url.Parse(u)
 			}
-			if u := urls[g.r.Intn(len(urls))]; u != "" {
+			if u := urls[g.intn(len(urls))]; u != "" {
 				s.GetURL, _ = url.Parse(u)
 			}
 			names := []string{"Authorization", "Cookie", "Expires", "cookie", "X-Other", "authorization"}
@@ -710,7 +710,7 @@ func init() {
 				if s.Header == nil {
 					s.Header = http.Header{}
 				}
-				name := names[g.r.Intn(len(names))]
+				name := names[g.intn(len(names))]
 				s.Header[name] = append(s.Header[name], g.text())
 			}
 			return s
@@ -729,7 +729,7 @@ func init() {
 		witnesses: []bin.Data{{Data: []byte("A")}, {Data: []byte("AB"), Type: "text/plain"}, {CID: "c", MaxAge: 400 * time.Millisecond}},
 		gen: func(g *gen) bin.Data {
 			ages := []time.Duration{0, time.Second, 90 * time.Second, 86400 * time.Second, 1500 * time.Millisecond, 400 * time.Millisecond, 500 * time.Millisecond, 2500 * time.Millisecond, -time.Second}
-			return bin.Data{CID: g.opt(), MaxAge: ages[g.r.Intn(len(ages))], NoCache: g.r.Chance(1, 4), Type: g.opt(), Data: g.bytes()}
+			return bin.Data{CID: g.opt(), MaxAge: ages[g.intn(len(ages))], NoCache: g.chance(1, 4), Type: g.opt(), Data: g.bytes()}
 		},
 		marshalPtr: true,
 		tr:         func(v *bin.Data) xml.TokenReader { return v.TokenReader() },
@@ -753,7 +753,7 @@ func init() {
 		witnesses: []file.Meta{{Name: "f"}, {Name: "f", Date: time.Date(2020, 1, 2, 3, 4, 5, 600000000, time.UTC), Hash: crypto.HashOutput{Hash: crypto.SHA256, Out: []byte{1, 2}}}},
 		gen: func(g *gen) file.Meta {
 			m := file.Meta{MediaType: g.text(), Name: g.text(), Date: g.time(true), Size: g.u64(), Width: g.u64(), Height: g.u64(), Length: g.u64()}
-			if !g.r.Chance(1, 6) {
+			if !g.chance(1, 6) {
 				m.Hash = crypto.HashOutput{Hash: g.hash(), Out: append([]byte{1}, g.bytes()...)}
 			}
 			return m
@@ -784,7 +784,7 @@ func init() {
 		dec:   true,
 		canon: func(v *crypto.HashOutput) string { return (&kv{}).s("hash", v.Hash.String()).x("out", v.Out).String() },
 	})
-	genKey := func(g *gen) crypto.Key { return crypto.Key{Trusted: g.r.Bool(), KeyID: g.bytes()} }
+	genKey := func(g *gen) crypto.Key { return crypto.Key{Trusted: g.boolean(), KeyID: g.bytes()} }
 	genOwned := func(g *gen) crypto.OwnedKeys {
 		o := crypto.OwnedKeys{Owner: g.njid()}
 		for n := g.count(4); n > 0; n-- {
@@ -831,7 +831,7 @@ func init() {
 
 	// ---- decode-only types ---------------------------------------------------------------------
 	register(spec[pubsub.Condition]{name: "pubsub.Condition",
-		gen:   func(g *gen) pubsub.Condition { return pubsub.Condition(g.r.Intn(23)) },
+		gen:   func(g *gen) pubsub.Condition { return pubsub.Condition(g.intn(23)) },
 		dec:   true,
 		canon: func(v *pubsub.Condition) string { return fmt.Sprintf("cond=%d", uint32(*v)) },
 	})
